@@ -49,7 +49,7 @@ static int check(const uint8_t *s, int len, int verbose) {
     /* shape signature = which components exist */
     uint64_t shape = (u->scheme != 0) | (u->username != 0) << 1 | (u->password != 0) << 2 | (u->hostname != 0) << 3 | (u->port != 0) << 4 | (u->path != 0) << 5 | (u->query != 0) << 6 | (u->fragment != 0) << 7;
     cx_set_add(&shapes, shape * 31 + (uint64_t) len + 1000);
-    if ((int) r.n != tl || memcmp(r.p, s, (size_t) tl) != 0) {
+    if ((int) r.n != tl || (tl > 0 && memcmp(r.p, s, (size_t) tl) != 0)) {
         static hx_buf e; hb_reset(&e); hb_esc(&e, r.p, r.n); hb_term(&e);
         char m[300];
         /* attribution: the IPv6-literal branch drops the bytes between ']' and ':' / end of authority */
